@@ -9,7 +9,7 @@
 From Coq Require Import List ZArith Permutation.
 From TskVerif Require Import Base.Common C15.Combination C15.Partitions C15.RankTree
   C15.TopoSpec C15.CombProofs C15.CombRankProofs C15.WRProofs C15.RankTreeBounded
-  C15.PartitionProofs C15.OorProofs C15.ChildOrderProofs C15.LabelOorProofs C15.RuleAscProofs C15.NumShapesTotal C15.ShapeRankProofs C15.ShapeDenseProofs C15.LabelRankProofs.
+  C15.PartitionProofs C15.OorProofs C15.ChildOrderProofs C15.LabelOorProofs C15.RuleAscProofs C15.NumShapesTotal C15.ShapeRankProofs C15.ShapeDenseProofs C15.LabelRankProofs C15.LabelTreeProofs C15.LabelDenseProofs.
 Import ListNotations.
 Open Scope Z_scope.
 
@@ -255,5 +255,71 @@ Theorem label_children_level_inverse : forall gs rank labels cls clrs N,
   num_list_of_group_labellings gs = Ok N -> 0 <= rank < N ->
   clr_loop (relabel_groups gs cls clrs) labels = Ok rank /\
   length cls = length (concat gs) /\ length clrs = length (concat gs) /\
-  Forall zsorted cls /\ Permutation (concat cls) labels.
+  Forall zsorted cls /\ Permutation (concat cls) labels /\
+  Forall2 (fun c tl => Z.of_nat (length tl) = c_nl c) (concat gs) cls /\
+  Forall2 (fun c tr => 0 <= tr < c_nlab c) (concat gs) clrs.
 Proof. exact children_level. Qed.
+
+(* ---- (d) label half closed over the whole tree, UNBOUNDED ----
+   For every nice shape (what shape_unrank produces: shape_unrank_is_nice) and every label rank
+   l in [0, num_labellings), whatever label_unrank returns has, at EVERY node, a cached label
+   rank equal to compute_label_rank of its children ([label_consistent]); its num_leaves, shape
+   rank and num_labellings are the shape's, its label rank is l and its labels are the ones
+   handed in. *)
+Theorem shape_unrank_is_nice : forall fuel n r sh,
+  1 <= n -> 0 <= r -> shape_unrank fuel n r = Ok sh -> shape_nice sh.
+Proof. exact shape_unrank_nice. Qed.
+
+Theorem label_unrank_then_rank : forall sh l labels t,
+  shape_nice sh -> zsorted labels -> Z.of_nat (length labels) = sh_nl sh ->
+  0 <= l < sh_nlab sh -> label_unrank sh l labels = Ok t ->
+  label_consistent t /\ summary_l t = mkcs (sh_nl sh) (sh_rk sh) (sh_nlab sh) l labels.
+Proof. exact label_unrank_consistent. Qed.
+
+(* RankTree.unrank(n,(s,l)) for EVERY n >= 1: if it returns a tree then (s,l) lies in the dense
+   ranges (0 <= s, 0 <= l < num_labellings(n,s)), and at every node of the result both cached
+   ranks equal what compute_shape_rank / compute_label_rank recompute from the children; the
+   root carries (num_leaves, shape rank, label rank, labels) = (n, s, l, [0..n-1]).
+   I.e. rank(unrank(n,(s,l))) = (s,l) on the RankTree objects, for all n.
+   Still _partial (see notes): the passage through a tskit Tree (to_tsk_tree / from_tsk_tree
+   re-sorts the children: needs "label_unrank returns children in canonical order"), density of
+   the label ranks, unrank(rank t) = t and all_trees for every n -- the n <= 6 theorems above
+   remain the proved versions of those. *)
+Theorem rank_unrank_all_n : forall n s l t,
+  1 <= n -> rt_unrank n s l = Ok t ->
+  exists sh,
+    shape_unrank (S (Z.to_nat n)) n s = Ok sh /\
+    shape_consistent sh /\ label_consistent t /\
+    summary_l t = mkcs n s (sh_nlab sh) l (default_labels n) /\
+    0 <= s /\ 0 <= l < sh_nlab sh.
+Proof. exact rt_unrank_consistent. Qed.
+
+(* Density of the label ranks, UNBOUNDED: every label rank below num_labellings is accepted *)
+Theorem label_unrank_dense : forall sh l labels,
+  shape_nice sh -> zsorted labels -> Z.of_nat (length labels) = sh_nl sh ->
+  0 <= l < sh_nlab sh -> exists t, label_unrank sh l labels = Ok t.
+Proof. exact LabelDenseProofs.label_unrank_dense. Qed.
+
+(* Step (1) complete at the level of RankTree objects, for EVERY n >= 1: every (s,l) with
+   0 <= s < num_shapes n and 0 <= l < num_labellings(n,s) is accepted by RankTree.unrank, and in
+   the result every node's cached shape and label rank equal the recomputed ones, the root's
+   being (s,l)  [with rank_unrank_all_n: nothing outside the dense ranges is accepted]. *)
+Theorem rank_unrank_on_dense_ranges : forall n nS s,
+  1 <= n -> num_shapes n = Ok nS -> 0 <= s < nS ->
+  exists sh, shape_unrank (S (Z.to_nat n)) n s = Ok sh /\ shape_consistent sh /\
+    forall l, 0 <= l < sh_nlab sh ->
+      exists t, rt_unrank n s l = Ok t /\ label_consistent t /\
+                summary_l t = mkcs n s (sh_nlab sh) l (default_labels n).
+Proof. exact LabelDenseProofs.rank_unrank_on_dense_ranges. Qed.
+
+(* _partial: Tree.unrank(n,(s,l)).rank() = (s,l) for every n, RELATIVE TO the explicitly stated
+   missing lemma (hypothesis): to_tsk_tree followed by from_tsk_tree gives back the cached ranks
+   of the tree RankTree.unrank built (needs: label_unrank returns the children of every node in
+   canonical order, so that the re-sort in from_tsk_tree is the identity).  The n <= 6 theorem
+   unrank_then_rank_bounded is the unconditional statement. *)
+Theorem unrank_then_rank_partial : forall n s l p,
+  1 <= n -> tree_unrank n s l = Ok p ->
+  (forall t, rt_unrank n s l = Ok t ->
+     exists t', from_plain (to_plain t) = Ok t' /\ lt_srk t' = lt_srk t /\ lt_lrk t' = lt_lrk t) ->
+  tree_rank p = Ok (s, l).
+Proof. exact LabelDenseProofs.unrank_then_rank_partial. Qed.
